@@ -268,6 +268,67 @@ func runNet(c *vu.Case) {
 			w.mu.Lock()
 			out = fmt.Sprintf("live=%d", w.liveCount(p))
 			w.mu.Unlock()
+		case "parfail": // parfail p=<peer> first=<id> waiters=<id>,<id> then=<id>
+			// the first request's NewStream is held back and then FAILS while other requests for the same peer wait behind
+			// it on the same sender; a further request follows once all of them have returned
+			w.ms.OnDisconnect(ctx, nPeer(p)) // start from no sender for this peer
+			synctest.Wait()
+			gate := make(chan struct{})
+			w.mu.Lock()
+			w.gate = gate
+			delete(w.behs, p)
+			w.opens[p] = []bool{false}
+			w.maxLive[p] = w.liveCount(p)
+			w.mu.Unlock()
+			type one struct {
+				id   int
+				resp *pb.Message
+				err  error
+			}
+			run := func(o *one, wg *sync.WaitGroup) {
+				defer wg.Done()
+				o.resp, o.err = w.ms.SendRequest(ctx, nPeer(p), reqMsg(o.id))
+			}
+			show := func(o *one) string {
+				if o.err != nil {
+					return nErr(o.err)
+				}
+				return replyID(o.resp)
+			}
+			var wg sync.WaitGroup
+			fid, _ := strconv.Atoi(a["first"])
+			first := &one{id: fid}
+			wg.Add(1)
+			go run(first, &wg)
+			synctest.Wait() // the first request is inside NewStream
+			var waiters []*one
+			for _, t := range strings.Split(a["waiters"], ",") {
+				ii, _ := strconv.Atoi(t)
+				o := &one{id: ii}
+				waiters = append(waiters, o)
+				wg.Add(1)
+				go run(o, &wg)
+			}
+			synctest.Wait() // the others wait for the sender's lock
+			close(gate)
+			w.mu.Lock()
+			w.gate = nil
+			w.mu.Unlock()
+			wg.Wait()
+			synctest.Wait()
+			tid, _ := strconv.Atoi(a["then"])
+			then := &one{id: tid}
+			wg.Add(1)
+			go run(then, &wg)
+			wg.Wait()
+			synctest.Wait()
+			var ws []string
+			for _, o := range waiters {
+				ws = append(ws, fmt.Sprintf("%d:%s", o.id, show(o)))
+			}
+			w.mu.Lock()
+			out = fmt.Sprintf("first=%s waiters=[%s] then=%s opened=%d live=%d maxlive=%d", show(first), strings.Join(ws, ","), show(then), w.opened-before, w.liveCount(p), w.maxLive[p])
+			w.mu.Unlock()
 		case "par": // par reqs=<p>:<id>,<p>:<id>,...  — concurrent requests, NewStream held back until all are under way
 			type one struct {
 				p, id int
@@ -374,6 +435,14 @@ func TestVerifC11(t *testing.T) {
 					c.In = append(c.In, fmt.Sprintf("reqpre p=%d id=%d", p, id))
 				case x < 17:
 					c.In = append(c.In, fmt.Sprintf("disconnect p=%d", p))
+				case x < 18:
+					var ws []string
+					first := id + 1
+					for j := 0; j < r.Range(1, 3); j++ {
+						ws = append(ws, fmt.Sprint(id+2+j))
+					}
+					id += 2 + len(ws)
+					c.In = append(c.In, fmt.Sprintf("parfail p=%d first=%d waiters=%s then=%d", p, first, strings.Join(ws, ","), id))
 				default:
 					var rs []string
 					for j := 0; j < r.Range(2, 5); j++ {
